@@ -191,9 +191,23 @@ var errCallersCause = errors.New("the caller's own cancellation cause")
 type ctxKey struct{}
 
 func (p Program) String() string {
-	parts := make([]string, len(p.Ops))
-	for i, o := range p.Ops {
-		parts[i] = o.String()
+	parts := make([]string, 0, len(p.Ops))
+	for i := 0; i < len(p.Ops); {
+		// runs of the same pair of steps are written once with a count (programs that warm a lane up with thousands of tasks)
+		if i+1 < len(p.Ops) {
+			a, b := p.Ops[i].String(), p.Ops[i+1].String()
+			n := 1
+			for i+2*n+1 < len(p.Ops) && p.Ops[i+2*n].String() == a && p.Ops[i+2*n+1].String() == b {
+				n++
+			}
+			if n >= 4 {
+				parts = append(parts, fmt.Sprintf("%d x [%s; %s]", n, a, b))
+				i += 2 * n
+				continue
+			}
+		}
+		parts = append(parts, p.Ops[i].String())
+		i++
 	}
 	dl := ""
 	if p.Deadline > 0 {
